@@ -11,6 +11,9 @@ import GoLucene.Proofs.SqlQuery
   run / any one character).  `cleanFilter` is the decidable predicate "a tree of the filterable fragment outside every
   recorded finding class" (exclusive / open string ranges, float bounds needing more than two decimals, mixed-kind
   bounds, commas and quoted * in bounds, SIMILAR TO metacharacters in patterns, identifiers beyond 63 bytes …).
+  Float ranges whose bounds have at most two decimals are INSIDE, two-sided (`x:{1.5 TO 2.25}`) and — since fix F12 of
+  `toFloats` (finding K-range-float-open: `a:[* TO 1.5]` was rendered `"a" BETWEEN '*' AND 1.5`) — OPEN ones
+  (`x:[* TO 1.5]` renders `"x" <= 1.50`, `x:{2.25 TO *}` renders `"x" > 2.25`); `open_float_range_example` below.
 
   Proved here for ALL such trees (any nesting depth) and ALL rows: the SQL predicate is true on exactly the rows on
   which the query is true; the predicate exists; and the text renderer succeeds on the tree.  The refutations
@@ -54,4 +57,16 @@ theorem accepted_query_sql_selects_what_it_means (env : Env) (s df : Bytes) (e :
     (Sql.parseSql t).bind (evalSql row) = evalL row e :=
   SqlQuery.query_sql_means_query env s df e t h hc hr hd row
 
+/-- NON-VACUITY for open float ranges (fix F12): `x:[* TO 1.5]` is in the fragment, renders (as `"x" <= 1.50`), and
+    PostgreSQL's reading of the text is true on exactly the rows on which the query is true -/
+theorem open_float_range_example :
+    cleanFilter exFloatUpTo = true ∧ render pgFns exFloatUpTo = .ok (b "\"x\" <= 1.50") ∧
+    ∀ row : Row, (Sql.parseSql (b "\"x\" <= 1.50")).bind (evalSql row) = evalL row exFloatUpTo := by
+  have hr : render pgFns exFloatUpTo = .ok (b "\"x\" <= 1.50") := by decide +kernel
+  exact ⟨by decide +kernel, hr, fun row =>
+    rendered_text_selects_what_the_query_means exFloatUpTo _ (by decide +kernel) (by decide +kernel)
+      (by decide +kernel) hr row⟩
+
 end GoLucene.C03
+
+#print axioms GoLucene.C03.open_float_range_example
